@@ -176,7 +176,9 @@ def r3(F, rep):
             if "f_cv_reflecting_lower_boundary" in k and "f_cv_reflecting_upper_boundary" in k:
                 conds.append((s, cn))
     if not conds:
-        raise AnalysisBroken("reflection test not found in the integrator")
+        rep.add("C17-R3", "reflect|present", f.loc(), "the integrator contains no test of the reflecting-boundary flags", False,
+                detail="the extended coordinate is never reflected", func=f.q)
+        return
     outer, ocn = conds[0]
     integ = [w for w, op in writes_to(f, "x_ext") if op in ("+=", "-=") and not any(a is outer for a in f.ancestors(w))]
     if len(integ) < 2:
